@@ -736,7 +736,8 @@ class CSSSerializer(object):
             for item in rule.seq:
                 type_, val = item.type, item.value
                 # PRE
-                if '}' == val:
+                # the content of a string or URL is no block delimiter
+                if '}' == val and type_ not in ('STRING', 'URI'):
                     # close last open item on stack
                     stackblock = stacks.pop().value()
                     if stackblock:
@@ -752,7 +753,7 @@ class CSSSerializer(object):
                     out.append(val, type_)
 
                 # POST
-                if '{' == val:
+                if '{' == val and type_ not in ('STRING', 'URI'):
                     # new stack level
                     stacks.append(Out(self))
 
